@@ -173,7 +173,7 @@ PerComplete(s) == IF Len(s.b) = 0 THEN <<0>> ELSE s.b
 
 EncOctStr(s, t) ==
    LET n == Len(t.v)
-       inRoot == InSize(n, t)
+       inRoot == InSize(n, t) \/ ("forceRoot" \in DOMAIN t /\ t.forceRoot)      \* (forceRoot: the fault model's over-long values in root form)
        s0 == IF t.ext THEN PutBit(s, IF inRoot THEN 0 ELSE 1) ELSE s
    IN IF t.ext /\ ~inRoot THEN EncFragments(s0, n, 1, "oct", t.v)
       ELSE IF FixedSize(t) THEN (IF n = 0 THEN s0 ELSE IF n <= 2 THEN PutOctets(s0, t.v) ELSE PutOctets(PerAlign(s0), t.v))
@@ -181,7 +181,7 @@ EncOctStr(s, t) ==
       ELSE EncFragments(s0, n, 1, "oct", t.v)
 EncBitStr(s, t) ==
    LET n == t.nbits
-       inRoot == InSize(n, t)
+       inRoot == InSize(n, t) \/ ("forceRoot" \in DOMAIN t /\ t.forceRoot)      \* (forceRoot: the fault model's over-long values in root form)
        s0 == IF t.ext THEN PutBit(s, IF inRoot THEN 0 ELSE 1) ELSE s
    IN IF t.ext /\ ~inRoot THEN EncFragments(s0, n, 1, "bit", t.v)
       ELSE IF FixedSize(t) THEN (IF n = 0 THEN s0 ELSE IF n <= 16 THEN PutBitString(s0, t.v, n) ELSE PutBitString(PerAlign(s0), t.v, n))
@@ -189,7 +189,7 @@ EncBitStr(s, t) ==
       ELSE EncFragments(s0, n, 1, "bit", t.v)
 EncSeqOf(s, t) ==
    LET n == Len(t.v)
-       inRoot == InSize(n, t)
+       inRoot == InSize(n, t) \/ ("forceRoot" \in DOMAIN t /\ t.forceRoot)      \* (forceRoot: the fault model's over-long values in root form)
        s0 == IF t.ext THEN PutBit(s, IF inRoot THEN 0 ELSE 1) ELSE s
    IN IF t.ext /\ ~inRoot THEN EncFragments(s0, n, 1, "elem", t.v)
       ELSE IF FixedSize(t) THEN EncElems(s0, t.v, 1, n)
@@ -235,7 +235,7 @@ PerMarks(s, t, base) ==
    CASE t.k = "seq" -> LET s0 == IF t.ext THEN PutBit(s, 0) ELSE s IN MarksFields(EncPreamble(s0, t.fields), t.fields, base, here, {}, {})
      [] t.k = "seqof" ->
           LET n == Len(t.v)
-              inRoot == InSize(n, t)
+              inRoot == InSize(n, t) \/ ("forceRoot" \in DOMAIN t /\ t.forceRoot)      \* (forceRoot: the fault model's over-long values in root form)
               s0 == IF t.ext THEN PutBit(s, IF inRoot THEN 0 ELSE 1) ELSE s
           IN IF n >= 16384 THEN [s |-> PerEnc(s, t), m |-> here, ln |-> {}, ol |-> {}]
              ELSE IF (t.ext /\ ~inRoot) \/ ~(FixedSize(t) \/ SizeIsCW(t))
